@@ -152,6 +152,9 @@ def _worker(args: Tuple[str, List[tuple], int, int, bool, int]) -> dict:
     for root in roots:
         rname = root_name(root)
         cfg = cfg_for(root)
+        if do_shrink:  # thorough tier: deeper and larger values
+            cfg = cfg or GenCfg()
+            cfg.max_depth, cfg.max_nodes = 7, 500
         strat = tvgen.value_strategy(sub.objects, root, cfg)
         if extra_for is not None:
             strat = hypothesis.strategies.tuples(strat, extra_for(sub, root))
